@@ -394,7 +394,11 @@ func GenAPIHistory(t *rapid.T) APIHistory {
 	}
 	for i := 0; i < np; i++ {
 		if pct(t, 85, "submitFirst") {
-			h.Ops = append(h.Ops, APIOp{Kind: OpSubmit, Plan: i})
+			op := APIOp{Kind: OpSubmit, Plan: i}
+			if pct(t, 15, "cancelSubmit") {
+				op.CancelUs = pick(t, []int{1, 20, 50, 100, 150, 200, 300, 400, 600, 900}, "cancelSubmitUs")
+			}
+			h.Ops = append(h.Ops, op)
 		}
 	}
 	n := rng(t, 2, 12, "nOps")
@@ -403,6 +407,9 @@ func GenAPIHistory(t *rapid.T) APIHistory {
 		switch pick(t, []int{0, 1, 2, 2, 2, 3, 3, 3, 4, 4, 5, 6, 7}, "kind") {
 		case 0:
 			op.Kind = OpSubmit
+			if pct(t, 15, "cancelSubmit2") {
+				op.CancelUs = pick(t, []int{1, 20, 50, 100, 150, 200, 300, 400, 600, 900}, "cancelSubmitUs2")
+			}
 		case 1:
 			op.Kind, op.Arg = OpSubmitInvalid, uniform(t, 9, "invalidKind")
 		case 2:
